@@ -61,7 +61,7 @@ type c14Case struct {
 }
 
 const c14Rule = "case = raw-socket producer configuration (tcp | udp, retry-max 0..4) + 1..300 messages (1 octet..48 KiB, in a quarter of the tcp cases some extended to exactly 255..131073 octets on and next to the 8-, 12-, 16- and 17-bit marks; JSON-like text rich in %d %s %% %! verbs, quotes, UTF-8 and arbitrary non-newline octets, each tagged with its index; in a quarter of the cases handed over as adjacent sub-slices of one buffer instead of private copies: the producer must not touch memory beyond the message, and the buffer must be unchanged afterwards) " +
-	"+ fault plan (tcp): none, or 1..3 breaks (after message i the sink closes gracefully | resets the connection, optionally stops listening for a drawn downtime; with two or more breaks the feeder is paced so that later breaks still find traffic), or an outage plan (2..4 outages on one producer, each costing a drawn 2..140 messages of a paced feeder, delivered traffic in between), or a stall plan (the sink stops reading while 30..60 messages of 48 KiB follow, so that a write blocks half-way, then resets), or a slow-sink plan (the sink stops reading for 0.3..5.5 s (thorough: ..31 s) and then goes on, while 1200..2500 messages keep the producer's queue full: the no-fault oracle applies); with a fault plan the producer may have been up and idle for 0.4..5.5 s (thorough: ..31 s) before traffic starts; the real producer.NewProducer(\"rawSocket\").Run() writes to a sink owned by the harness; " +
+	"+ fault plan (tcp): none, or 1..3 breaks (after message i the sink closes gracefully | resets the connection, optionally stops listening for a drawn downtime; with two or more breaks the feeder is paced so that later breaks still find traffic), or a flap plan (8..40 closes / resets with the listener up while 1500..4000 messages flow back to back), or an outage plan (2..4 outages on one producer, each costing a drawn 2..140 messages of a paced feeder, delivered traffic in between), or a stall plan (the sink stops reading while 30..60 messages of 48 KiB follow, so that a write blocks half-way, then resets), or a slow-sink plan (the sink stops reading for 0.3..5.5 s (thorough: ..31 s) and then goes on, while 1200..2500 messages keep the producer's queue full: the no-fault oracle applies); with a fault plan the producer may have been up and idle for 0.4..5.5 s (thorough: ..31 s) before traffic starts; the real producer.NewProducer(\"rawSocket\").Run() writes to a sink owned by the harness; " +
 	"oracle without fault = the sink's byte stream is exactly concat(message + newline) (udp: one datagram per message, paced; in a third of the udp cases the sink's socket is closed for 5..150 ms and bound again to the same port: delivery must resume within retry-max+4 messages handed over one at a time, every datagram that arrives is exactly its message); with faults (every break index is a fault point) = the complete lines received over all connections are " +
 	"byte-identical input messages with strictly increasing indices (no duplicate, no corruption, no reordering), and once the sink is reachable again probe messages handed over one at a time resume delivery within retry-max+4 probes with nothing missing afterwards; " +
 	"non-trivial = a message contains '%' or is >= 4 KiB, or the plan has a break; distinct by hash"
@@ -183,6 +183,21 @@ func genC14Plan(t *rapid.T) c14Case {
 			c.Msgs = append(c.Msgs, b[:49152])
 		}
 		c.Breaks = []c14Break{{After: rapid.IntRange(1, 3).Draw(t, "stallafter"), Kind: "stall", StallMS: rapid.SampledFrom([]int{80, 150, 300}).Draw(t, "stallms")}}
+		return c
+	}
+	if c.Protocol == "tcp" && rapid.IntRange(0, 9).Draw(t, "flapplan") == 0 {
+		// a flapping sink: it closes or resets the connection again and again (its listener stays up) while messages
+		// flow back to back — the producer is in the middle of its writes every time
+		c.Msgs = nil
+		nm := rapid.IntRange(1500, 4000).Draw(t, "nflap")
+		for i := 0; i < nm; i++ {
+			c.Msgs = append(c.Msgs, []byte(rapid.SampledFrom(c14Snippets).Draw(t, "flapsnip")+"flap"))
+		}
+		at := 0
+		for k, nb := 0, rapid.IntRange(8, 40).Draw(t, "nflaps"); k < nb; k++ {
+			at += rapid.IntRange(5, 60).Draw(t, "flapevery")
+			c.Breaks = append(c.Breaks, c14Break{After: at, Kind: rapid.SampledFrom([]string{"close", "rst"}).Draw(t, "flapkind")})
+		}
 		return c
 	}
 	if c.Protocol == "tcp" && rapid.IntRange(0, 7).Draw(t, "outageplan") == 0 {
